@@ -121,4 +121,151 @@ def check_C19(ctx):
     return ctx.finish()
 
 
-CHECKS = {"C18": check_C18, "C19": check_C19}
+
+# --------------------------------------------------------------------------------------
+# codec properties: C01 C02 C03 C04 C06 C13 share one correspondence run
+# --------------------------------------------------------------------------------------
+import subprocess, time
+
+
+def run_model(cases_path, out_path, timeout=3000):
+    drv = os.path.join(core.VERIF, "ocaml", "driver")
+    with open(cases_path, "rb") as fin, open(out_path, "wb") as fout:
+        p = subprocess.run(["timeout", str(timeout), drv], stdin=fin, stdout=fout, stderr=subprocess.PIPE)
+    return p.returncode, p.stderr.decode(errors="replace")
+
+
+def run_codec(ctx, facts, n):
+    """returns (report, rows) with rows = list of (group, command, impl, model)"""
+    d = os.path.join(core.WORK, "codec-%s-%d" % (ctx.pid, os.getpid()))
+    os.makedirs(d, exist_ok=True)
+    rc, rep, out, err = run_harness(["codec", "-seed", str(ctx.seed), "-n", str(n), "-dir", d,
+                                     "-corpus", os.path.join(core.VERIF, "corpus", "codec.txt")], timeout=3000)
+    if rep is None:
+        ctx.violation("harness-crash", {"what": "codec suite crashed (a crash of the harness process is a crash of the library code it runs)",
+                                        "stdout": tail(out, 15), "stderr": tail(err, 40)}, found_input=False)
+        return None, []
+    rows = []
+    if facts.get("ocaml_ok"):
+        rc2, err2 = run_model(os.path.join(d, "cases.txt"), os.path.join(d, "model.txt"))
+        rd = lambda f: open(os.path.join(d, f), errors="replace").read().split("\n")
+        cases, impl, model, meta = rd("cases.txt"), rd("impl.txt"), rd("model.txt"), rd("meta.txt")
+        for i in range(len(cases) - 1):
+            rows.append((meta[i], cases[i], impl[i], model[i] if i < len(model) else "model-missing"))
+    import shutil
+    shutil.rmtree(d, ignore_errors=True)
+    return rep, rows
+
+
+def short(s, n=400):
+    return s if len(s) <= n else s[:n] + "...(%d chars)" % len(s)
+
+
+def codec_common(ctx, groups, n_quick, n_thorough, need=("CodecProofs",)):
+    facts = prepare(ctx)
+    n = n_quick if ctx.tier == "quick" else n_thorough
+    broken = None
+    if not facts["prop_ok"]:
+        broken = theorem_broken(ctx, facts, "Properties/%s.v no longer checks" % ctx.pid)
+    if not facts.get("harness_ok"):
+        ctx.violation("harness-build", {"what": "harness does not build against the current tree", "log": tail(facts.get("harness_log", ""))}, found_input=False)
+        return facts, None, [], broken
+    if not facts.get("ocaml_ok"):
+        broken = broken or {"what": "extracted model does not build", "log": tail(facts.get("ocaml_log", ""))}
+    rep, rows = run_codec(ctx, facts, n)
+    rows = [r for r in rows if r[0].split(":")[-1] in groups or r[0] in groups]
+    if rep:
+        ctx.cov["evaluations"] = len(rows) if rows else rep["evaluations"]
+        ctx.cov["distinct_nontrivial"] = len({r[1] for r in rows if len(r[1]) > 30}) if rows else rep["distinct_nontrivial"]
+        ctx.cov["traces_validated_against_impl"] = len(rows)
+        ctx.cov["rule"] = rep["rule"] + "; this property's projection uses groups " + ", ".join(sorted(groups))
+        ctx.cov["distribution"] = {k: v for k, v in rep.get("distribution", {}).items()}
+        for r in rows[:: max(1, len(rows) // 3)][:3]:
+            ctx.cov["samples"].append({"group": r[0], "case": short(r[1], 300), "impl": short(r[2], 200), "model": short(r[3], 200)})
+    return facts, rep, rows, broken
+
+
+CODEC_ASSUME = [
+    "Codec.v is a hand-written model of encode.go/decode.go/fields.go; it is tied to /repo by running the implementation and the extracted model on the same cases on every run (this run's counts are in coverage)",
+    "reflect, bufio, io.LimitReader/ReadFull/CopyN, bytes.Buffer, encoding/binary are modelled, not verified",
+    "extraction: ExtrOcamlBasic + ExtrOcamlString (byte -> char, string -> char list), no Extract Constant; ocaml/driver.ml parsing/printing glue",
+]
+
+
+def first_word(s):
+    return s.split(" ", 1)[0]
+
+
+def check_C02(ctx):
+    facts, rep, rows, broken = codec_common(ctx, {"enc-wf", "rt"}, 300, 4000)
+    ctx.assumptions += CODEC_ASSUME + ["concurrent encodes are covered by the generated fact gen_pkg_var_writes = [] (no package state is written) and by the history/parallel suite, not by a model of the Go memory model"]
+    bad = 0
+    for g, cmd, impl, model in rows:
+        if g.endswith("rt"):
+            impl, model = " ".join(impl.split(" ")[:2]), " ".join(model.split(" ")[:2])
+        if impl != model:
+            bad += 1
+            if bad <= 5:
+                # model = ser . to_tree by theorem C02_enc_canonical, so different bytes are non-canonical bytes
+                ctx.violation("bytes", {"what": "Encode output differs from the canonical TTLV serialisation (ser . to_tree)",
+                                        "value": cmd.split(" ", 1)[1], "implementation": short(impl, 2000), "canonical": short(model, 2000)},
+                              found_input=first_word(impl) in ("ok", "err", "panic", "err-wrote"))
+    # history and concurrency independence (impl-only oracle)
+    if rep is not None:
+        rc, hrep, out, err = run_harness(["history", "-seed", str(ctx.seed), "-n", "40" if ctx.tier == "quick" else "400"])
+        if hrep is None:
+            ctx.violation("history-crash", {"what": "history suite crashed", "stderr": tail(err)}, found_input=False)
+        else:
+            ctx.cov["history_evaluations"] = hrep["evaluations"]
+            ctx.cov["evaluations"] += hrep["evaluations"]
+            for v in hrep["violations"][:5]:
+                ctx.violation("history", v)
+    if broken and not ctx.violations:
+        ctx.violation("theorem", broken, found_input=False)
+    return ctx.finish()
+
+
+def check_C13(ctx):
+    facts, rep, rows, broken = codec_common(ctx, {"enc-any", "enc-shape", "enc-wf", "dec-target"}, 300, 4000)
+    ctx.assumptions += CODEC_ASSUME
+    bad = 0
+    for g, cmd, impl, model in rows:
+        w = first_word(impl)
+        if w in ("panic", "err-wrote", "hang"):
+            bad += 1
+            if bad <= 8:
+                ctx.violation("panic" if w == "panic" else "wrote", {
+                    "what": "Encode/Decode panicked on the value given" if w != "err-wrote" else "a failed Encode wrote bytes to the destination",
+                    "case": short(cmd, 3000), "implementation": impl, "model": short(model, 300)})
+    if rep:
+        for v in rep["violations"]:
+            if v["kind"].startswith("target-"):
+                ctx.violation("target", v)
+    if broken and not ctx.violations:
+        ctx.violation("theorem", broken, found_input=False)
+    return ctx.finish()
+
+
+def check_C03(ctx):
+    facts, rep, rows, broken = codec_common(ctx, {"dec-valid", "dec-mut", "dec-random", "dec-trunc", "dec-noncanon", "stream"}, 300, 5000)
+    ctx.assumptions += CODEC_ASSUME + ["delivery independence is checked on the implementation (five deliveries of the same bytes, I/O error injection); the model reads from a flat byte list"]
+    bad = 0
+    for g, cmd, impl, model in rows:
+        w = first_word(impl)
+        if w in ("panic", "hang") or "panic" in impl.split(" | ")[-1:][0][:5]:
+            bad += 1
+            if bad <= 8:
+                ctx.violation("panic", {"what": "Decode panicked / did not return", "case": short(cmd, 3000), "implementation": short(impl, 300)})
+        elif first_word(model) == "fuel":
+            ctx.violation("model-fuel", {"what": "model ran out of fuel (contradicts theorem C03_total)", "case": short(cmd, 3000)}, found_input=False)
+    if rep:
+        for v in rep["violations"]:
+            if v["kind"] in ("over-read", "delivery-dependent", "ioerr-accepted") or v["kind"].startswith("decode-"):
+                ctx.violation(v["kind"], v)
+    if broken and not ctx.violations:
+        ctx.violation("theorem", broken, found_input=False)
+    return ctx.finish()
+
+
+CHECKS = {"C18": check_C18, "C19": check_C19, "C02": check_C02, "C03": check_C03, "C13": check_C13}
+
